@@ -130,7 +130,7 @@ func GenReadReq(t *Tape, dom Domain, existing []Tuple, i int) ReadReq {
 }
 
 func (s *Sys) DoRead(r ReadReq) Resp {
-	ctx := s.Env.Ctx
+	ctx := s.ctx()
 	switch r.Kind {
 	case "check-get", "check-get-openapi", "check-post", "check-post-openapi":
 		var d *int
